@@ -404,6 +404,7 @@ package cache
 
 //@ func (*shardedMap).ExpireAll
 //@   props C07 C08 C16 C11 C18
+//@   replay expireall backend:=sharded
 //@   replayfor guard: entryrace backend:=sharded
 //@   replayfor C11.unl unlimited backend:=sharded
 //@   requires ctx != nil && repOK(c)
@@ -446,6 +447,7 @@ package cache
 
 //@ func (*shardedMapOf[V]).ExpireAll
 //@   like (*shardedMap).ExpireAll subst TraitEntry=TraitEntryOf[V]
+//@   replay expireall backend:=shardedof
 //@   replayfor C11.unl unlimited backend:=shardedof
 //@ func (*shardedMapOf[V]).DeleteAll
 //@   like (*shardedMap).DeleteAll subst TraitEntry=TraitEntryOf[V]
@@ -1079,6 +1081,7 @@ package cache
 
 //@ func (*syncMap).ExpireAll
 //@   props C07 C16 C11 C18
+//@   replay expireall backend:=syncmap
 //@   replayfor C11.unl unlimited backend:=syncmap
 //@   requires ctx != nil && sRepOK(c)
 //@   requires c.t.expirationsSet >= 0 && c.t.expirationsSet < 4611686018427387904
